@@ -71,6 +71,11 @@ def wild_defs(seed, n):
         else:
             tail = D.NOTAIL
         lvl = D.level(named, tail, version=rnd.random() < 0.4, ftu=rnd.random() < 0.2)
+        # the help / version flags are ordinary named flags: they may be given a variable to fall back to
+        if rnd.random() < 0.15:
+            lvl["help_flag"] = {"shorts": ["-h"], "longs": ["--help"], "help": "HELP-h", "env": "BPAF_VERIF_HELPVAR"}
+        if lvl["version"] and rnd.random() < 0.2:
+            lvl["version_flag"] = {"shorts": ["-V"], "longs": ["--version"], "help": "HELP-V", "env": "BPAF_VERIF_VERVAR"}
         if rnd.random() < 0.3:
             lvl["descr"] = pe(rnd.choice(["DESCR plain", "tab\tin descr", "two\n\nparagraphs"]))
         out.append(D.mkdef(f"wild{seed}_{i}", lvl, maxlen=1))
@@ -135,7 +140,23 @@ def sessions(seed, fams, ncalls):
         again = list(base)
         rnd.shuffle(again)
         calls = base + again
-        out.append({"def": d, "calls": calls})
+        # the variables the definition declares are set (or not) for the whole session
+        env = {k: rnd.choice(["1", "x", "UNSET"]) for k in sorted(declared_vars(d))} if rnd.random() < 0.6 else {}
+        out.append({"def": d, "calls": calls, "env": env})
+    return out
+
+
+def declared_vars(x):
+    out = set()
+    if isinstance(x, dict):
+        for k, v in x.items():
+            if k in ("env", "env2") and isinstance(v, str) and v:
+                out.add(v)
+            else:
+                out |= declared_vars(v)
+    elif isinstance(x, list):
+        for v in x:
+            out |= declared_vars(v)
     return out
 
 
